@@ -216,6 +216,68 @@ theorem qualify_limit_does_not_commute :
       ≠ qualifyRewritten (fun _ r => col 0 r) (fun r => gt3 (col 1 r) (.int 1)) id 1
           (limitOffset (some 1) 0 [[.int 1], [.int 2]]) := by decide
 
+-- ------------------------------------------------------------------------------------------ division chains
+/-- **DuckDB -> SQLite, chains of ANY length** `o₀ / o₁ / … / o_k` without parentheses over integer (untyped or
+    INTEGER-cast) operands with non-zero divisors: the generated text — one CAST per level, because the wrapped left
+    operand leaves `Generator.binary`'s flattening and goes back through `div_sql` — evaluates on SQLite to exactly
+    the number DuckDB computes.  (Flags from the live classes.) -/
+theorem div_chain_preserved (anns : Nat → Ann) (h : ∀ i, anns i ≠ .real) (v : Nat → Int) (k : Nat)
+    (hz : ∀ i, 1 ≤ i → i ≤ k + 1 → v i ≠ 0) :
+    evalC .sqlite (fun i => .int (v i))
+        (genT (typedDivision .sqlite) (safeDivision .sqlite) (parseDiv (typedDivision .duckdb) (safeDivision .duckdb))
+          anns (chainT (k + 1)))
+      = evalC .duckdb (fun i => .int (v i)) (plainT (chainT (k + 1))) := by
+  obtain ⟨n, d, hd, hs⟩ := chain_eval anns h v k hz
+  have e : genT (typedDivision .sqlite) (safeDivision .sqlite) (parseDiv (typedDivision .duckdb) (safeDivision .duckdb))
+      anns = toSqlite anns := by
+    simp [toSqlite, typedDivision, safeDivision, parseDiv]
+  rw [e, hd, hs]
+
+example : showCEx (genT true true ⟨false, false⟩ (fun _ => .none) (chainT 2))
+    = "(div (double (div (double o0) o1)) o2)" := by decide
+
+/-- a single division in the tree model is the single-node model `genDiv` (decided over all flags and annotations) -/
+theorem div_tree_single_is_genDiv :
+    ∀ dt ∈ [true, false], ∀ ds ∈ [true, false], ∀ st ∈ [true, false], ∀ ss ∈ [true, false],
+    ∀ la ∈ [Ann.none, .int, .real], ∀ ra ∈ [Ann.none, .int, .real],
+      showCEx (genT dt ds ⟨st, ss⟩ (fun i => if i = 0 then la else ra) (chainT 1))
+        = (match genDiv dt ds ⟨st, ss⟩ la ra with
+           | .div .l .r => "(div o0 o1)"
+           | .div .l (.nullif0 .r) => "(div o0 (nullif0 o1))"
+           | .div (.castDouble .l) .r => "(div (double o0) o1)"
+           | .div (.castDouble .l) (.nullif0 .r) => "(div (double o0) (nullif0 o1))"
+           | .castBigint (.div .l .r) => "(bigint (div o0 o1))"
+           | _ => "?") := by decide
+
+/-- the seeded regression "skip the cast when the left operand is itself a Div" as an UNREPAIRED VARIANT: the inner
+    division then stays inside `binary`'s flattened spine, never sees `div_sql`, and runs as integer division:
+    7 / 2 / 2 is 7/4 on DuckDB and 1 on SQLite -/
+theorem div_chain_inner_cast_skipped_counterexample :
+    evalC .duckdb (fun i => .int ([7, 2, 2].getD i 0)) (plainT (chainT 2)) = .real 7 4 ∧
+    evalC .sqlite (fun i => .int ([7, 2, 2].getD i 0)) (.div (.div (.opnd 0) (.opnd 1)) (.opnd 2)) = .int 1 ∧
+    evalC .sqlite (fun i => .int ([7, 2, 2].getD i 0)) (genT true true ⟨false, false⟩ (fun _ => .none) (chainT 2))
+      = .real 7 4 := by decide
+
+/-- clean-tree finding (DuckDB -> SQLite): a REAL-typed RIGHT operand suppresses the cast of the left operand; when
+    that left operand is a Div it is flattened and its division runs on integers: `a / b / CAST(c AS REAL)` with
+    (7, 2, 1) is 3.5 on DuckDB and 3 on SQLite -/
+theorem div_chain_real_right_operand_counterexample :
+    showCEx (genT true true ⟨false, false⟩ (fun i => if i = 2 then .real else .none) (chainT 2))
+      = "(div (div o0 o1) o2)" ∧
+    evalC .duckdb (fun i => [DV.int 7, .int 2, .real 1 1].getD i .null) (plainT (chainT 2)) = .real 7 2 ∧
+    evalC .sqlite (fun i => [DV.int 7, .int 2, .real 1 1].getD i .null)
+        (genT true true ⟨false, false⟩ (fun i => if i = 2 then .real else .none) (chainT 2)) = .real 3 1 := by decide
+
+/-- clean-tree finding (SQLite -> DuckDB): only the TOP divisor of a flattened chain gets its NULLIF; a zero INNER
+    divisor is NULL on SQLite and inf on DuckDB: `a / b / c` with (8, 0, 2) -/
+theorem div_chain_inner_nullif_missing_counterexample :
+    showCEx (genT false false ⟨true, true⟩ (fun _ => .none) (chainT 2)) = "(div (div o0 o1) (nullif0 o2))" ∧
+    showCEx (genT false false ⟨true, true⟩ (fun _ => .none) (.div (.paren (chainT 1)) (.opnd 2)))
+      = "(div (paren (div o0 (nullif0 o1))) (nullif0 o2))" ∧
+    evalC .sqlite (fun i => .int ([8, 0, 2].getD i 0)) (plainT (chainT 2)) = .null ∧
+    evalC .duckdb (fun i => .int ([8, 0, 2].getD i 0)) (genT false false ⟨true, true⟩ (fun _ => .none) (chainT 2))
+      = .inf false := by decide
+
 -- ------------------------------------------------------------------------------------------ alias generation
 /-- **`eliminate_qualify` hoists every window under its OWN alias**: whatever names the SELECT already uses and however
     many windows the QUALIFY condition contains, the aliases produced by repeated `find_new_name(named_selects, "_w")`
